@@ -260,6 +260,47 @@ def _part_a(sh, tier, res):
     res.count("a_done_len%d" % L, n)
 
 
+# ------------------------------------------------------------------ (r) repetition: size, not shape
+# "For every string s": a short string repeated k times, k around the powers of two a count limit or a
+# buffer size would be (64, 128, 256): catches per-call limits (re.sub count, bounded caches, recursion).
+REPEATS = {"quick": (65, 130, 300), "thorough": (63, 64, 65, 127, 129, 257, 1025)}
+R_LEN = {"quick": 3, "thorough": 3}
+R_EV_LEN = {"quick": 2, "thorough": 3}
+
+
+def _r_shards(tier):
+    return ([{"part": "r", "L": 2, "prefix": [i], "what": "esc"} for i in range(len(SIGMA))] +
+            [{"part": "r", "L": 2, "prefix": [i], "what": "ev"} for i in range(len(ALPHA_FULL))])
+
+
+def _part_r(sh, tier, res):
+    n = 0
+    if sh["what"] == "esc":
+        head = SIGMA[sh["prefix"][0]]
+        for L in range(R_LEN[tier]):
+            for tup in itertools.product(SIGMA, repeat=L):
+                u = head + "".join(tup)
+                for k in REPEATS[tier]:
+                    if deadline_passed():
+                        res.capped = True
+                        return
+                    check_escape(u * k, res, embed_emoji=False)
+                    n += 1
+        res.count("r_escape_strings", n)
+    else:
+        head = ALPHA_FULL[sh["prefix"][0]]
+        for L in range(R_EV_LEN[tier]):
+            for tup in itertools.product(ALPHA_FULL, repeat=L):
+                for k in REPEATS[tier][:3]:
+                    if deadline_passed():
+                        res.capped = True
+                        return
+                    check_events([head] + list(tup) + ["x"] + ([head] + list(tup)) * (k - 1), res, emoji=False, part="r",
+                                 classify_resized=False)
+                    n += 1
+        res.count("r_event_sequences", n)
+
+
 # ------------------------------------------------------------------ (b) tag semantics
 # event name -> (kind, markup, payload)
 #   text: payload = plain text;  open: payload = (normalised name, RefStyle);  close: payload = normalised name
@@ -721,8 +762,8 @@ def _replay_t(case, res):
 # ------------------------------------------------------------------ protocol
 def plan(tier, seed):
     # strata in ascending length, (b) before (a) inside a stratum: a wall cap cuts off the longest strings only
-    shards = _a_shards(5 if tier == "quick" else 7) + _b_shards(tier) + _c_shards(tier) + _t_shards(tier)
-    shards.sort(key=lambda sh: (sh["L"], "tbca".index(sh["part"]), sh.get("alpha", ""), sh.get("h", ""), sh["prefix"]))
+    shards = _a_shards(5 if tier == "quick" else 7) + _b_shards(tier) + _c_shards(tier) + _t_shards(tier) + _r_shards(tier)
+    shards.sort(key=lambda sh: (sh["L"], "tbcar".index(sh["part"]), sh.get("alpha", ""), sh.get("h", ""), sh["prefix"]))
     return shards
 
 
@@ -756,6 +797,8 @@ def run_shard(sh, tier, seed):
         _part_a(sh, tier, res)
     elif sh["part"] == "t":
         _part_t(sh, tier, res)
+    elif sh["part"] == "r":
+        _part_r(sh, tier, res)
     else:
         _part_b(sh, res)
     return res
@@ -779,6 +822,8 @@ def describe(tier, seed, res):
                 "never-parsed tag [b red on blue link U] (explicit / implicit close), every execution in a fork of a zygote that never "
                 "rendered markup (vf/cold.py), every executed line of rich/style.py and rich/markup.py a scheduling point, all schedules "
                 "with <=1 preemption; each thread's Text and a later single-threaded render are judged like the sequential case. "
+                "(r) size: every string of <=%d symbols of (a) repeated k times and every sequence of <=%d events of (b) repeated k times "
+                "(one text chunk after the first copy), k in %s: a per-call count limit, a bounded cache or recursion depth shows here. "
                 "A case is non-trivial when escape() added at least one "
                 "backslash (a) / at least one character is inside an open tag or MarkupError is due (b) / a styled character "
                 "coexists with a chunk that changed length (c); distinct = distinct outcome signatures."
@@ -790,7 +835,7 @@ def describe(tier, seed, res):
                    "6" if q else "6..7", "7" if q else "7..8", 5 if q else 6,
                    5 if q else 6,
                    "" if q else ", :chad: (emoji, 2 code points), U+0007 (control that is not stripped)",
-                   ", ".join(T_ORDER)),
+                   ", ".join(T_ORDER), R_LEN[tier], R_EV_LEN[tier], list(REPEATS[tier])),
         "assumptions": [
             "Console.get_style resolves the fixed tag spellings bold, b, red, blue, 'not bold', 'link U', 'link V' to their documented styles (decided by C06/C20)",
             "the embedded clause is only judged for contexts that do not end in a backslash (such a context is not 'complete markup')",
@@ -807,6 +852,8 @@ def describe(tier, seed, res):
                                           "tag_events_extra_strata_complete": all(_completed(res, tier)[4].values()),
                                           "tag_events_extra_strata_incomplete": sorted(k for k, v in _completed(res, tier)[4].items() if not v)},
                      "resized_text_sequences": res.counters.get("c_sequences", 0),
+                     "repeated_strings": res.counters.get("r_escape_strings", 0),
+                     "repeated_event_sequences": res.counters.get("r_event_sequences", 0),
                      "schedules": res.counters.get("schedules", 0),
                      "thread_harnesses_explored": sorted(k.split(":", 1)[1] for k in res.counters if k.startswith("threads_harness:"))},
     }
@@ -818,8 +865,8 @@ def replay(case):
         check_escape(case["s"], res)
     elif case.get("part") == "t":
         _replay_t(case, res)
-    elif case.get("part") == "c":
-        check_events(tuple(case["events"]), res, case["emoji"], case["entry"], "c")
+    elif case.get("part") in ("c", "r"):
+        check_events(tuple(case["events"]), res, case["emoji"], case["entry"], case["part"], classify_resized=case["part"] == "c")
     else:
         check_events(tuple(case["events"]), res)
     return [(k, v[2]) for k, v in sorted(res.violations.items())]
